@@ -52,6 +52,8 @@ TARGETS = [
     dict(name="key_check_public_key", file="src/key.rs", fn="check_public_key", kind="function", ret="unit + pk_error"),
     dict(name="normalized_string_new", file="src/normalized_string.rs", fn="inner", kind="function", ret="nstr_view + ns_error",
          consts={"MAXIMUM_STRING_LENGTH_IN_BYTES": ("max_string_length", "u8")}),
+    dict(name="pin_remap_pin_grid", file="src/pin.rs", fn="remap_pin_grid", kind="function", ret=("arr", "u8"),
+         consts={"MAX_PIN_LENGTH": ("max_pin_length", "u8")}),
     dict(name="pin_to_bytes", file="src/pin.rs", fn="pin_to_bytes", kind="function", ret=("arr", "u8"),
          consts={"MAX_PIN_LENGTH": ("max_pin_length", "u8")}),
     dict(name="matrix_get_number_at_coordinates", file="src/matrix_card.rs", fn="get_number_at_coordinates", kind="method",
